@@ -542,6 +542,25 @@ class RoundGen:
                     expr = ["or", expr, ["cmp", "==", w, None]]
             elif typ == "bool" and cfg["nonnumeric_conditions"]:
                 expr = ["cmp", "==", bool(v) if v is not None else True, None]
+            if typ in ("int", "float") and isinstance(v, (int, float)) and not isinstance(v, bool) \
+                    and rng.random() < 0.3:
+                # the bound is another node ('{?} <= {?box.limit}'): what holds when this node
+                # is validated can stop holding when only the *other* node is assigned later
+                others = [p_ for p_, n_ in self.g.nodes.items()
+                          if p_ != path and n_["type"] == typ and not isinstance(n_["value"], (list, bool))
+                          and n_["value"] is not None and (n_["unit"] is None) == (node["unit"] is None)
+                          and (n_["unit"] is None or self.g.units.dims(n_["unit"]) ==
+                               self.g.units.dims(node["unit"])) and not n_.get("imported")]
+                if others:
+                    op_ = rng.choice(others)
+                    probe = dict(node, condition=["cmpnode", "<", op_])
+                    lt = DM.eval_condition(self.g, probe, v, margin=2e-2)
+                    gt = DM.eval_condition(self.g, dict(node, condition=["cmpnode", ">", op_]), v,
+                                           margin=2e-2)
+                    if lt is True:
+                        expr = ["cmpnode", rng.choice(["<", "<="]), op_]
+                    elif gt is True:
+                        expr = ["cmpnode", rng.choice([">", ">="]), op_]
             if expr is not None:
                 self.emit({"k": "condition", "indent": indent, "expr": expr})
         if self.stopped:
@@ -669,7 +688,8 @@ class RoundGen:
                 return
             v = bv
             self.fault_label = "constraint_" + kind
-        elif rng.random() < cfg["p_none"] and not node["declared"] and not (
+        elif rng.random() < cfg["p_none"] and (not node["declared"] or node.get("had_real_value")) \
+                and not (
                 node["options"] or node["condition"] is not None or node["format"] is not None):
             v = None
             none_unit = rng.random() < 0.3
@@ -983,7 +1003,7 @@ class RoundGen:
         name = self.fresh_name(chain)
         if name is None:
             return
-        kind = rng.choice(["const", "const", "scribble", "double"])
+        kind = rng.choice(["const", "const", "scribble", "double", "mutate"])
         if fault == "callback_raises":
             kind = "raise"
             self.fault_label = "callback_raises"
@@ -996,7 +1016,7 @@ class RoundGen:
             else:
                 p = rng.choice(cands)
                 st.update(type="float", unit=self.g.nodes[p]["unit"], fn={"kind": "double", "path": p})
-        if kind in ("const", "scribble", "raise"):
+        if kind in ("const", "scribble", "raise", "mutate"):
             typ = rng.choice(["float", "int", "str", "bool"])
             v = self.scalar_value(typ)
             if not v:
@@ -1130,6 +1150,21 @@ def make_callback(st, stats):
             raise CallbackFault("injected failure in " + st["fname"])
         if fn["kind"] == "double":
             return 2.0 * data[fn["path"]].value
+        if fn["kind"] == "mutate":
+            # not hostile, just careless: converts the numbers it reads to SI in place and
+            # extends the lists it is handed
+            stats.fault("callback_mutate", True)
+            for k in list(data):
+                try:
+                    v = data[k]
+                    if isinstance(getattr(v, "value", None), list):
+                        v.value.append(v.value[0])
+                    elif getattr(v, "unit", None) and hasattr(v, "convert"):
+                        v.convert({"cm": "m", "m": "km", "mm": "m", "km": "m", "s": "ms",
+                                   "ms": "s", "g": "kg", "kg": "g", "mg": "g"}.get(v.unit, v.unit))
+                except Exception:
+                    pass
+            return fn["value"]
         if fn["kind"] == "scribble":
             # a hostile callback: overwrite and delete what it was handed
             stats.fault("callback_scribble", True)
@@ -1209,6 +1244,11 @@ class DipStoreMachine(Machine):
                              if rng.random() < 0.8]
             # constraints travel with imported copies: import, then modify the copy
             cfg["weights"]["import"] = rng.choice([0, 1, 2])
+            if rng.random() < 0.3:
+                # user functions see the node values: whatever they do to what they are handed,
+                # the returned environment still satisfies every constraint
+                cfg["callbacks"] = True
+                cfg["weights"]["fn"] = 1
             if rng.random() < 0.3:
                 # bounded array nodes filled from text files (whole or sliced), then modified
                 cfg["files"] = True
